@@ -208,7 +208,7 @@ def engine_e5(prop, cfg, tier, seed):
 
 E6_RULE = ("types: the leaves (16 primitives, (), String, 3 user types) + PRNG(seed) grammar growth to nesting depth 3 over Box, Vec, Option, "
            "Result, tuples of 1-3, arrays, Box<[T]>, Box<str>, generic user types of two crates' paths; per type: recorded name vs the extracted model, "
-           "4 spellings (short, re-spaced, compact, the compiler's) looked up in a table before and after a JSON round trip, typed lookup, host resolver, "
+           "5 spellings (short, re-spaced, compact, the compiler's, the compiler's re-spaced; fresh heap strings) looked up in a table before and after a JSON round trip and in a derived foreign table, three passes, typed lookup, host resolver, "
            "rustc identity probe `fn(T) -> <recorded name>`; distinct = distinct Rust type")
 
 
